@@ -363,8 +363,9 @@ ASSUMPTIONS = [
     'values of the table are the printed values; "nan"/"inf" tokens become NaN/inf',
     'pandas comparisons with the NaN max()/min() of an empty column are False (mergeFirst/mergeLast on empty tables)',
     'datetime.date(y, m, d) accepts exactly 1<=y<=9999, 1<=m<=12, 1<=d<=days in month (Gregorian leap rule)',
-    'pandas quirk kept out of the generated logs: the token -9223372036854775808 in an otherwise integer column that also '
-    'holds a nan token is read as NaN (int64 NA sentinel)',
+    'pandas quirks kept out of the generated logs (LAMMPS prints neither): the token -9223372036854775808 in an otherwise '
+    'integer column that also holds a nan token is read as NaN (int64 NA sentinel); an integer token >= 2^63 next to a '
+    'float token makes pandas keep the whole column as text',
     'str.split()/strip() whitespace on the log lines is ASCII whitespace (the synthesised logs contain no other Unicode '
     'whitespace)',
     'uber_open_rmode presents text, bytes, path and stream input as the same sequence of lines',
@@ -438,7 +439,7 @@ def _float_token(rng: random.Random) -> str:
         return '%d.%s' % (n, '9' * rng.randint(6, 12))
     if k == 13:                # integers printed as floats / beyond 2^53
         return rng.choice(['%d.0' % rng.randint(-999, 999), '%d.' % rng.randint(0, 99), '1e3', '2.5e2',
-                           str(rng.choice([2 ** 53 + 1, -2 ** 63 + 1, 2 ** 63 - 1, 10 ** 19, 123456789012345678]))])
+                           str(rng.choice([2 ** 53 + 1, -2 ** 63 + 1, 2 ** 63 - 1, 123456789012345678]))])
     if k == 0:
         return '0'
     if k == 1:
